@@ -4,22 +4,106 @@
 pub assume_specification<I: core::slice::SliceIndex<str>>[ <str as core::ops::Index<I>>::index ](s: &str, index: I) -> (r: &I::Output)
     ensures vstd::slice::SliceIndexSpec::index_postcondition(&index, s, r);
 
-// UTF-8 bridge (theorems about UTF-8 that are assumed here): vstd specifies str slicing on the byte encoding,
-// the contracts of this framework use the char-level view `s@`.
-pub axiom fn axiom_utf8_boundary(s: &str, k: int)
+// UTF-8 bridge: vstd specifies str slicing on the byte encoding (`s.spec_bytes() == encode_utf8(s@)`), the contracts of this framework use the
+// char-level view `s@`. The four bridge facts are PROVED from vstd's definitions and its lemmas about encode_utf8 / decode_utf8 / is_char_boundary.
+/// byte length of the encoding = sum of the encoded lengths
+pub proof fn lemma_encode_len(cs: Seq<char>)
+    ensures vstd::utf8::encode_utf8(cs).len() == blen(cs)
+    decreases cs.len()
+{
+    if cs.len() == 0 {
+        reveal_with_fuel(vstd::utf8::encode_utf8, 1);
+    } else {
+        lemma_encode_len(cs.drop_last());
+        vstd::utf8::encode_utf8_push(cs.drop_last(), cs.last());
+        assert(cs.drop_last().push(cs.last()) =~= cs);
+    }
+}
+
+/// the byte offset of every char index is a char boundary of the encoding (induction along vstd's recursive is_char_boundary)
+pub proof fn lemma_boundary(cs: Seq<char>, k: int)
+    requires 0 <= k <= cs.len()
+    ensures vstd::utf8::is_char_boundary(vstd::utf8::encode_utf8(cs), blen(cs.take(k)) as int)
+    decreases k
+{
+    vstd::utf8::encode_utf8_valid_utf8(cs);
+    reveal_with_fuel(vstd::utf8::is_char_boundary, 1);
+    if k == 0 {
+        assert(cs.take(0) =~= Seq::<char>::empty());
+    } else {
+        let rest = cs.drop_first();
+        let bytes = vstd::utf8::encode_utf8(cs);
+        vstd::utf8::encode_utf8_first_scalar(cs);
+        reveal_with_fuel(vstd::utf8::encode_utf8, 1);
+        assert(bytes == vstd::utf8::encode_scalar(cs[0] as u32) + vstd::utf8::encode_utf8(rest));
+        assert(vstd::utf8::pop_first_scalar(bytes) =~= vstd::utf8::encode_utf8(rest));
+        lemma_boundary(rest, k - 1);
+        assert(cs.take(k) =~= seq![cs[0]] + rest.take(k - 1));
+        lemma_blen_add(seq![cs[0]], rest.take(k - 1));
+        assert(blen(seq![cs[0]]) == clen(cs[0])) by {
+            reveal_with_fuel(blen, 2);
+            assert(seq![cs[0]].drop_last() =~= Seq::<char>::empty());
+            assert(seq![cs[0]].last() == cs[0]);
+        }
+        assert(cs =~= cs.take(k) + cs.skip(k));
+        lemma_blen_add(cs.take(k), cs.skip(k));
+        lemma_encode_len(cs);
+    }
+}
+
+pub proof fn lemma_suffix_view(s: Seq<char>, t: Seq<char>, k: int)
+    requires 0 <= k <= s.len(), vstd::utf8::encode_utf8(t) == vstd::utf8::encode_utf8(s).subrange(blen(s.take(k)) as int, vstd::utf8::encode_utf8(s).len() as int)
+    ensures t == s.skip(k)
+{
+    assert(s =~= s.take(k) + s.skip(k));
+    vstd::utf8::encode_utf8_concat(s.take(k), s.skip(k));
+    lemma_encode_len(s.take(k));
+    assert(vstd::utf8::encode_utf8(s).subrange(blen(s.take(k)) as int, vstd::utf8::encode_utf8(s).len() as int) =~= vstd::utf8::encode_utf8(s.skip(k)));
+    vstd::utf8::encode_utf8_decode_utf8(t);
+    vstd::utf8::encode_utf8_decode_utf8(s.skip(k));
+}
+
+pub proof fn lemma_prefix_view(s: Seq<char>, t: Seq<char>, k: int)
+    requires 0 <= k <= s.len(), vstd::utf8::encode_utf8(t) == vstd::utf8::encode_utf8(s).subrange(0, blen(s.take(k)) as int)
+    ensures t == s.take(k)
+{
+    assert(s =~= s.take(k) + s.skip(k));
+    vstd::utf8::encode_utf8_concat(s.take(k), s.skip(k));
+    lemma_encode_len(s.take(k));
+    assert(vstd::utf8::encode_utf8(s).subrange(0, blen(s.take(k)) as int) =~= vstd::utf8::encode_utf8(s.take(k)));
+    vstd::utf8::encode_utf8_decode_utf8(t);
+    vstd::utf8::encode_utf8_decode_utf8(s.take(k));
+}
+
+pub proof fn lemma_utf8_boundary(s: &str, k: int)
     requires 0 <= k <= s@.len()
-    ensures vstd::utf8::is_char_boundary(s.spec_bytes(), boff(s@, k) as int);
+    ensures vstd::utf8::is_char_boundary(s.spec_bytes(), boff(s@, k) as int)
+{
+    reveal(boff);
+    lemma_boundary(s@, k);
+}
 
-pub axiom fn axiom_utf8_bytes_len(s: &str)
-    ensures s.spec_bytes().len() == blen(s@);
+pub proof fn lemma_utf8_bytes_len(s: &str)
+    ensures s.spec_bytes().len() == blen(s@)
+{
+    lemma_encode_len(s@);
+}
 
-pub axiom fn axiom_utf8_suffix_view(s: &str, t: &str, k: int)
+pub proof fn lemma_utf8_suffix_view(s: &str, t: &str, k: int)
     requires 0 <= k <= s@.len(), t.spec_bytes() == s.spec_bytes().subrange(boff(s@, k) as int, s.spec_bytes().len() as int)
-    ensures t@ == s@.skip(k);
+    ensures t@ == s@.skip(k)
+{
+    reveal(boff);
+    lemma_suffix_view(s@, t@, k);
+}
 
-pub axiom fn axiom_utf8_prefix_view(s: &str, t: &str, k: int)
+pub proof fn lemma_utf8_prefix_view(s: &str, t: &str, k: int)
     requires 0 <= k <= s@.len(), t.spec_bytes() == s.spec_bytes().subrange(0, boff(s@, k) as int)
-    ensures t@ == s@.take(k);
+    ensures t@ == s@.take(k)
+{
+    reveal(boff);
+    lemma_prefix_view(s@, t@, k);
+}
 
 pub assume_specification<'a>[ <std::str::CharIndices<'a> as Clone>::clone ](it: &std::str::CharIndices<'a>) -> (r: std::str::CharIndices<'a>)
     ensures
